@@ -19,7 +19,7 @@ import treegen
 # per-property profile: MC configs (Which, MaxOps, MaxT, Slice), generator emphasis
 PROFILES = {
     "C01": dict(mc=[("N1zero", 2, 2, 3)], mc_thorough=[("N1zero", 2, 2, 1), ("F2fix", 2, 2, 2), ("N1fix", 2, 2, 3), ("F2zero", 2, 3, 1)],
-                gen=dict(nops=12, zerodip=True, trees=["F2", "F3", "N1", "S2", "N2", "F2", "F3", "N1", "S2", "N2", "FI3", "FI4", "MC3", "MCN"]), n=(240, 4000), lazy=0.4),
+                gen=dict(nops=12, zerodip=True, p_custom=0.2, giveaway=0.12, trees=["F2", "F3", "N1", "S2", "N2", "F2", "F3", "N1", "S2", "N2", "FI3", "FI4", "MC3", "MCN"]), n=(240, 4000), lazy=0.4),
     "C02": dict(mc=[("F2fix", 2, 2, 1)], mc_thorough=[("F2fix", 2, 2, 2), ("F2tier", 2, 2, 1), ("N1fix", 2, 2, 3), ("F2unit", 2, 3, 1), ("FIfix", 2, 2, 1)],
                 gen=dict(nops=12, trees=["F2", "F3", "N1", "S2", "N2", "FI3", "FI4", "FI4", "MC3", "MCN"], zerodip=True,
                          mix=[{}, {}, {}, {"trees": ["MC3", "MCN", "MC3"], "crash": True, "leverage": True, "zerodip": False}]), n=(240, 4000), lazy=0.2),
@@ -28,7 +28,7 @@ PROFILES = {
     "C07": dict(mc=[("F2tier", 2, 2, 1)], mc_thorough=[("F2tier", 2, 2, 2), ("F2unit", 2, 2, 1), ("N1fix", 2, 2, 3), ("F2fix", 2, 3, 1)],
                 gen=dict(nops=14, p_custom=0.3, same_sec=True, penny=True, zero_outlay=0.3, daytrade=0.1), n=(240, 4000), lazy=0.2),
     "C08": dict(mc=[("F2unit", 2, 2, 1)], mc_thorough=[("F2unit", 2, 2, 2), ("F2zero", 3, 2, 1), ("N1zero", 2, 2, 3), ("F2fix", 2, 3, 1)],
-                gen=dict(nops=14, p_redundant=0.4, p_unsettled=0.15, same_sec=True, p_custom=0.2, daytrade=0.2, reopen=0.25), n=(240, 4000), lazy=0.3),
+                gen=dict(nops=14, p_redundant=0.4, p_unsettled=0.15, same_sec=True, p_custom=0.2, daytrade=0.2, reopen=0.25, giveaway=0.1), n=(240, 4000), lazy=0.3),
     "C17": dict(mc=[("FIzero", 2, 2, 1)], mc_thorough=[("FIzero", 2, 3, 1), ("FIfix", 2, 2, 2), ("FIzero", 3, 2, 1)],
                 gen=dict(nops=14, trees=["FI3", "FI4", "FIN"], fund_subs=False), n=(240, 4000), lazy=0.0),
     "C16": dict(mc=[("F2zero", 2, 2, 2)], mc_thorough=[("F2zero", 2, 3, 2), ("N1zero", 2, 2, 2), ("F2fix", 2, 2, 2), ("F2zero", 3, 2, 2)],
